@@ -45,7 +45,7 @@ theorem c13_handed_over_prefix {mode : Bool} {sc : List Act} {s : State} (h : Re
   have hk := (reachable_konst h).1
   by_cases hf : s.bst = .final
   · exact ⟨pend s, by rw [hi.seq_fin hf, hk]⟩
-  · exact ⟨pend s ++ expected s.script, by rw [← List.append_assoc, hi.seq_run hf, hk]⟩
+  · exact ⟨pend s ++ expectedFrom s.acc s.script, by rw [← List.append_assoc, hi.seq_run hf, hk]⟩
 
 /-- **Sequence.** For every script and every operation list mixing the access styles, what the consumer has observed so far
 is a prefix of: the yielded values in order (none skipped, none repeated), then the body's own ending (exception or end marker),
@@ -463,10 +463,11 @@ theorem c13_pause_is_transparent (a b : List Act) :
     expected (a ++ Act.pause :: b) = expected (a ++ b)
     ∧ ∀ s : State, exec (Act.pause :: b) s = exec b { s with script := b } := by
   refine ⟨?_, fun s => by simp [exec]⟩
-  induction a with
-  | nil => simp
-  | cons x a ih =>
-    cases x <;> simp_all [expected, yields, ending]
+  have hacc : ∀ acc, expectedFrom acc (a ++ Act.pause :: b) = expectedFrom acc (a ++ b) := by
+    induction a with
+    | nil => intro acc; simp
+    | cons x a ih => intro acc; cases x <;> simp [ih]
+  exact hacc 0
 
 /-- The pinned synchronous access (before `/repo` commit 191263e "fix: synchronous and future access to a generator ran its body
 without a coroutine queue"; replayed on the headers in corpus/c13_pause_in_body.txt): `bool(gen.next())` from ordinary code on a
@@ -481,6 +482,600 @@ theorem c13_asis_pause_without_queue :
         = [.val 1, .val 2, .fin]
     ∧ (run (init false [.yield 1, .pause, .yield 2]) [.syncBegin 0, .syncEnd, .syncBegin 0, .syncEnd, .syncBegin 0, .syncEnd]).ub
         = false := by decide
+
+
+/-! ### the body's own variable, yielded as an lvalue (`acc.append(c); co_yield acc;`) -/
+
+/-- **The yielded variable is the body's.** The library never modifies the variable the body yielded as an lvalue: on every
+resumption from `co_yield acc` the body finds in it exactly what it had yielded (`accLog`), and while the body is parked there,
+`value()` reads the content of that very variable. -/
+theorem c13_body_variable_untouched {mode : Bool} {sc : List Act} {s : State} (h : Reachable mode sc s) :
+    (∀ p ∈ s.accLog, p.1 = p.2) ∧ (s.bst = .yield → s.atAcc = true → readVal s = Item.val s.acc) := by
+  have hi := reachable_inv h
+  refine ⟨hi.acc_ok, fun hy ha => ?_⟩
+  have hfl := hi.flags_run (by simp [hy])
+  simp [readVal, hfl.2, hi.acc_ret hy ha]
+
+/-- what a body that keeps appending the digits `cs` to one variable holding `a` yields: every prefix, built on the previous one -/
+def running : Nat → List Nat → List Nat
+  | _, [] => []
+  | a, c :: cs => (a * 10 + c) :: running (a * 10 + c) cs
+
+/-- **Accumulated values.** A stretch of `acc.append(c); co_yield acc;` statements must deliver every prefix of the accumulated
+content, each built on the previous one, and the rest of the body continues from the final content — so with `c13_sequence` the
+consumer sees 1, 12, 123, … and never a stale or a doubled prefix. -/
+theorem c13_accumulator_values (acc : Nat) (cs : List Nat) (rest : List Act) :
+    yieldsFrom acc (cs.map Act.yieldAcc ++ rest)
+      = running acc cs ++ yieldsFrom (cs.foldl (fun a c => a * 10 + c) acc) rest := by
+  induction cs generalizing acc with
+  | nil => simp [running]
+  | cons c cs ih => simp [running, yieldsFrom, ih]
+
+/-! ### the consumer's execution context (`resume_in_queue`) -/
+
+/-- a call whose future comes back pending has left the future pending -/
+theorem call_pending_fut (s : State) (a : Nat) (hp : (stepCall s a).2 = .pending) : (stepCall s a).1.fut = .pending := by
+  have key : ∀ t : State, (futRes t).2 = .pending → (futRes t).1.fut = .pending := by
+    intro t ht
+    unfold futRes at ht ⊢
+    by_cases hf : t.fut = .pending
+    · exact hf
+    · simp [hf] at ht
+  revert hp
+  unfold stepCall
+  split
+  · intro hp; cases hp
+  · split
+    · intro hp; cases hp
+    · split
+      · intro hp; cases hp
+      · unfold callGo
+        split
+        · intro hp; cases hp
+        · exact key _
+
+/-- **Served inside the call, in every execution context.** Whether the consumer is ordinary code or itself runs inside a
+coroutine (`s.coro` is arbitrary), an access made by non-awaiting code — `bool(gen.next(a))`, `gen(a)` — runs the body inside the
+call: the synchronous access is left blocked, the returned future pending, only if the body itself waits for an operation that
+has not completed. -/
+theorem c13_served_inside_the_call {mode : Bool} {sc : List Act} {s : State} (h : Reachable mode sc s) (a : Nat) :
+    (inSync (step s (.syncBegin a)).1 = true ∧ (step s (.syncBegin a)).1.block = false →
+      ∃ k, (step s (.syncBegin a)).1.bst = .await k ∧ k ∉ (step s (.syncBegin a)).1.resolved) ∧
+    ((step s (.call a)).2 = .pending →
+      ∃ k, (step s (.call a)).1.bst = .await k ∧ k ∉ (step s (.call a)).1.resolved) :=
+  ⟨fun hw => c13_waits_only_for_awaited (reachable_step h _) (Or.inl hw),
+   fun hp => c13_waits_only_for_awaited (reachable_step h _) (Or.inr (Or.inr (call_pending_fut s a hp)))⟩
+
+/-- `resume_in_queue` is `resume()`: the execution context decides only whether a queue is installed for the activation (which is
+counted), never whether or how the body runs -/
+theorem c13_context_only_counts (s : State) :
+    resumeInQueue s = resumeBody s ∨ (s.coro = false ∧ resumeInQueue s = resumeBody { s with qinst := s.qinst + 1 }) := by
+  unfold resumeInQueue
+  cases hc : s.coro
+  · exact Or.inr ⟨rfl, by simp⟩
+  · exact Or.inl (by simp)
+
+/-! #### nothing but `resume_in_queue` looks at the execution context
+
+`Blind f`: two states that differ only in the execution context and the count of installed queues are mapped by `f` to two such
+states (and to the same result).  Shown for every helper of the model, the body (`exec`, induction over the script) and every
+consumer operation. -/
+
+/-- a state with the consumer's execution context and the count of installed queues blanked out -/
+def erase (s : State) : State := { s with coro := false, qinst := 0 }
+
+/-- the same state in another execution context, with another count of installed queues -/
+def setCQ (b : Bool) (n : Nat) (s : State) : State := { s with coro := b, qinst := n }
+
+theorem exists_cq {s t : State} (h : erase s = erase t) : ∃ b n, t = setCQ b n s := by
+  refine ⟨t.coro, t.qinst, ?_⟩
+  cases s; cases t
+  simp only [erase, State.mk.injEq] at h
+  simp only [setCQ, State.mk.injEq]
+  simp_all
+
+@[simp] theorem inSync_cq (b n s) : inSync (setCQ b n s) = inSync s := rfl
+@[simp] theorem inflight_cq (b n s) : inflight (setCQ b n s) = inflight s := rfl
+@[simp] theorem readVal_cq (b n s) : readVal (setCQ b n s) = readVal s := rfl
+@[simp] theorem cur_cq (b n s) : cur (setCQ b n s) = cur s := rfl
+@[simp] theorem keptArgOk_cq (b n s a) : keptArgOk (setCQ b n s) a = keptArgOk s a := rfl
+@[simp] theorem cq_alive (b n s) : (setCQ b n s).alive = s.alive := rfl
+@[simp] theorem cq_reader (b n s) : (setCQ b n s).reader = s.reader := rfl
+@[simp] theorem cq_awaiting (b n s) : (setCQ b n s).awaiting = s.awaiting := rfl
+@[simp] theorem cq_done (b n s) : (setCQ b n s).done = s.done := rfl
+@[simp] theorem cq_exp (b n s) : (setCQ b n s).exp = s.exp := rfl
+@[simp] theorem cq_ret (b n s) : (setCQ b n s).ret = s.ret := rfl
+@[simp] theorem cq_caller (b n s) : (setCQ b n s).caller = s.caller := rfl
+@[simp] theorem cq_ifn (b n s) : (setCQ b n s).ifn = s.ifn := rfl
+@[simp] theorem cq_atAcc (b n s) : (setCQ b n s).atAcc = s.atAcc := rfl
+@[simp] theorem cq_mode (b n s) : (setCQ b n s).mode = s.mode := rfl
+@[simp] theorem cq_arg (b n s) : (setCQ b n s).arg = s.arg := rfl
+@[simp] theorem cq_bst (b n s) : (setCQ b n s).bst = s.bst := rfl
+@[simp] theorem cq_script (b n s) : (setCQ b n s).script = s.script := rfl
+@[simp] theorem cq_resolved (b n s) : (setCQ b n s).resolved = s.resolved := rfl
+@[simp] theorem cq_cons (b n s) : (setCQ b n s).cons = s.cons := rfl
+@[simp] theorem cq_block (b n s) : (setCQ b n s).block = s.block := rfl
+@[simp] theorem cq_kept (b n s) : (setCQ b n s).kept = s.kept := rfl
+@[simp] theorem cq_kstate (b n s) : (setCQ b n s).kstate = s.kstate := rfl
+@[simp] theorem cq_fut (b n s) : (setCQ b n s).fut = s.fut := rfl
+@[simp] theorem cq_it (b n s) : (setCQ b n s).it = s.it := rfl
+@[simp] theorem cq_coro (b n s) : (setCQ b n s).coro = b := rfl
+@[simp] theorem cq_qinst (b n s) : (setCQ b n s).qinst = n := rfl
+
+macro "isplit" : tactic => `(tactic| (split <;> (try simp only [*, ↓reduceIte, if_true, if_false, Bool.false_eq_true])))
+
+/-- `f` does not look at the execution context / the queue count -/
+def Blind (f : State → State) : Prop := ∀ s t, erase s = erase t → erase (f s) = erase (f t)
+def Blind2 (f : State → State × Res) : Prop :=
+  ∀ s t, erase s = erase t → erase (f s).1 = erase (f t).1 ∧ (f s).2 = (f t).2
+
+theorem wakeReader_blind (i : Item) : Blind (wakeReader · i) := by
+  intro s t h
+  obtain ⟨b, n, rfl⟩ := exists_cq h; clear h
+  simp only [wakeReader, cq_reader]
+  cases s.reader with
+  | none => rfl
+  | some r => cases r <;> rfl
+
+theorem unblockFuture_blind : Blind unblockFuture := by
+  intro s t h
+  obtain ⟨b, n, rfl⟩ := exists_cq h; clear h
+  simp only [unblockFuture, cq_awaiting, cq_done, cq_exp, cq_ret, cur_cq]
+  isplit
+  · isplit
+    · rfl
+    · exact wakeReader_blind _ _ _ rfl
+  · rfl
+
+theorem deliver_blind : Blind deliver := by
+  intro s t h
+  obtain ⟨b, n, rfl⟩ := exists_cq h; clear h
+  simp only [deliver, cq_caller, cq_ifn]
+  cases s.caller with
+  | none => rfl
+  | awt => rfl
+  | internal =>
+    cases s.ifn with
+    | null => rfl
+    | sync => rfl
+    | future => exact unblockFuture_blind _ _ rfl
+
+theorem finish_blind (th : Bool) : Blind (finish · th) := by
+  intro s t h
+  obtain ⟨b, n, rfl⟩ := exists_cq h; clear h
+  exact deliver_blind _ _ rfl
+
+theorem yieldAt_blind (v : Nat) : Blind (yieldAt · v) := by
+  intro s t h
+  obtain ⟨b, n, rfl⟩ := exists_cq h; clear h
+  exact deliver_blind _ _ rfl
+
+theorem yieldAccAt_blind (v : Nat) : Blind (yieldAccAt · v) := by
+  intro s t h
+  obtain ⟨b, n, rfl⟩ := exists_cq h; clear h
+  exact deliver_blind _ _ rfl
+
+theorem seeAcc_blind : Blind seeAcc := by
+  intro s t h
+  obtain ⟨b, n, rfl⟩ := exists_cq h; clear h
+  simp only [seeAcc, cq_atAcc]
+  isplit <;> rfl
+
+theorem recvArg_blind : Blind recvArg := by
+  intro s t h
+  obtain ⟨b, n, rfl⟩ := exists_cq h; clear h
+  simp only [recvArg, cq_mode, cq_arg]
+  isplit
+  · cases s.arg <;> rfl
+  · rfl
+
+theorem exec_blind : ∀ (sc : List Act), Blind (exec sc)
+  | [], s, t, h => by unfold exec; exact finish_blind false s t h
+  | .yield v :: rest, s, t, h => by
+      obtain ⟨b, n, rfl⟩ := exists_cq h; clear h
+      unfold exec; exact yieldAt_blind v _ _ rfl
+  | .yieldAcc c :: rest, s, t, h => by
+      obtain ⟨b, n, rfl⟩ := exists_cq h; clear h
+      unfold exec; exact yieldAccAt_blind c _ _ rfl
+  | .yieldNull :: rest, s, t, h => by
+      obtain ⟨b, n, rfl⟩ := exists_cq h; clear h
+      unfold exec; exact exec_blind rest _ _ (recvArg_blind _ _ rfl)
+  | .awaitReady :: rest, s, t, h => by
+      obtain ⟨b, n, rfl⟩ := exists_cq h; clear h
+      unfold exec; exact exec_blind rest _ _ rfl
+  | .pause :: rest, s, t, h => by
+      obtain ⟨b, n, rfl⟩ := exists_cq h; clear h
+      unfold exec; exact exec_blind rest _ _ rfl
+  | .await k :: rest, s, t, h => by
+      obtain ⟨b, n, rfl⟩ := exists_cq h; clear h
+      unfold exec
+      simp only [cq_resolved]
+      isplit
+      · exact exec_blind rest _ _ rfl
+      · rfl
+  | .guard :: rest, s, t, h => by
+      obtain ⟨b, n, rfl⟩ := exists_cq h; clear h
+      unfold exec; exact exec_blind rest _ _ rfl
+  | .throw :: rest, s, t, h => by unfold exec; exact finish_blind true s t h
+  | .ret :: rest, s, t, h => by unfold exec; exact finish_blind false s t h
+
+theorem resumeBody_blind : Blind resumeBody := by
+  intro s t h
+  obtain ⟨b, n, rfl⟩ := exists_cq h; clear h
+  simp only [resumeBody, cq_bst, cq_script]
+  cases s.bst with
+  | init => exact exec_blind _ _ _ rfl
+  | yield => exact exec_blind _ _ _ (seeAcc_blind _ _ (recvArg_blind _ _ rfl))
+  | await k => exact exec_blind _ _ _ rfl
+  | run => rfl
+  | final => rfl
+
+theorem resumeInQueue_blind : Blind resumeInQueue := by
+  intro s t h
+  obtain ⟨b, n, rfl⟩ := exists_cq h; clear h
+  simp only [resumeInQueue, cq_coro, cq_qinst]
+  cases s.coro <;> cases b <;> exact resumeBody_blind _ _ rfl
+
+
+theorem setArg_blind (a : Nat) : Blind (setArg · a) := by
+  intro s t h
+  obtain ⟨b, n, rfl⟩ := exists_cq h; clear h
+  simp only [setArg, cq_mode]
+  isplit <;> rfl
+
+theorem endSync_blind (kind : SyncKind) (x : Bool) : Blind2 (endSync · kind x) := by
+  intro s t h
+  obtain ⟨b, n, rfl⟩ := exists_cq h; clear h
+  cases kind <;> exact ⟨rfl, by first | rfl | trivial⟩
+
+theorem syncGo_blind (kind : SyncKind) : Blind2 (syncGo · kind) := by
+  intro s t h
+  obtain ⟨b, n, rfl⟩ := exists_cq h; clear h
+  simp only [syncGo, cq_done, cq_bst]
+  isplit
+  · exact endSync_blind kind false _ _ rfl
+  · isplit
+    · exact ⟨rfl, by first | rfl | trivial⟩
+    · exact ⟨resumeInQueue_blind _ _ rfl, by first | rfl | trivial⟩
+
+/-- the common prologue of an access: the generator exists, no synchronous access is under way, `_caller` is null -/
+theorem guarded_blind {f g : State → State × Res} (hf : Blind2 f)
+    (hg : ∀ s, g s = if !s.alive then (s, .gone) else if inSync s then (s, .blocked)
+      else if s.caller != .none then (s, .busy) else f s) : Blind2 g := by
+  intro s t h
+  obtain ⟨b, n, rfl⟩ := exists_cq h; clear h
+  simp only [hg, cq_alive, inSync_cq, cq_caller]
+  isplit
+  · exact ⟨rfl, by first | rfl | trivial⟩
+  · isplit
+    · exact ⟨rfl, by first | rfl | trivial⟩
+    · isplit
+      · exact ⟨rfl, by first | rfl | trivial⟩
+      · exact hf _ _ rfl
+
+theorem stepSyncBegin_blind (kind : SyncKind) (a : Nat) : Blind2 (stepSyncBegin · kind a) :=
+  guarded_blind (f := fun s => syncGo (setArg s a) kind)
+    (fun s t h => syncGo_blind kind _ _ (setArg_blind a s t h)) (fun _ => rfl)
+
+theorem stepSyncEnd_blind : Blind2 stepSyncEnd := by
+  intro s t h
+  obtain ⟨b, n, rfl⟩ := exists_cq h; clear h
+  simp only [stepSyncEnd, cq_cons, cq_block, cq_done, cur_cq]
+  cases s.cons with
+  | idle => exact ⟨rfl, by first | rfl | trivial⟩
+  | parked => exact ⟨rfl, by first | rfl | trivial⟩
+  | inSync kind =>
+    simp only []
+    isplit
+    · exact endSync_blind kind _ _ _ rfl
+    · exact ⟨rfl, by first | rfl | trivial⟩
+
+theorem stepValue_blind : Blind2 stepValue := by
+  intro s t h
+  obtain ⟨b, n, rfl⟩ := exists_cq h; clear h
+  simp only [stepValue, cq_alive, inSync_cq, inflight_cq, readVal_cq]
+  repeat (first | exact ⟨rfl, by first | rfl | trivial⟩ | isplit)
+
+theorem stepActive_blind : Blind2 stepActive := by
+  intro s t h
+  obtain ⟨b, n, rfl⟩ := exists_cq h; clear h
+  simp only [stepActive, cq_alive, inSync_cq, inflight_cq, cq_done]
+  repeat (first | exact ⟨rfl, by first | rfl | trivial⟩ | isplit)
+
+theorem anextGo_blind : Blind2 anextGo := by
+  intro s t h
+  obtain ⟨b, n, rfl⟩ := exists_cq h; clear h
+  simp only [anextGo, cq_done, cq_bst]
+  isplit
+  · exact ⟨rfl, by first | rfl | trivial⟩
+  · isplit
+    · exact ⟨rfl, by first | rfl | trivial⟩
+    · exact ⟨resumeBody_blind _ _ rfl, by first | rfl | trivial⟩
+
+theorem stepAnext_blind (a : Nat) : Blind2 (stepAnext · a) :=
+  guarded_blind (f := fun s => anextGo (setArg s a))
+    (fun s t h => anextGo_blind _ _ (setArg_blind a s t h)) (fun _ => rfl)
+
+theorem subGo_blind : Blind2 subGo := by
+  intro s t h
+  obtain ⟨b, n, rfl⟩ := exists_cq h; clear h
+  simp only [subGo, cq_bst]
+  isplit
+  · exact ⟨rfl, by first | rfl | trivial⟩
+  · exact ⟨resumeInQueue_blind _ _ rfl, by first | rfl | trivial⟩
+
+theorem stepSub_blind (a : Nat) : Blind2 (stepSub · a) :=
+  guarded_blind (f := fun s => subGo (setArg s a))
+    (fun s t h => subGo_blind _ _ (setArg_blind a s t h)) (fun _ => rfl)
+
+theorem stepKeep_blind (a : Nat) : Blind2 (stepKeep · a) :=
+  guarded_blind (f := fun s => ({ setArg s a with kept := some a, kstate := false }, .unit))
+    (fun s t h => by
+      have h1 : erase (setArg s a) = erase (setArg t a) := setArg_blind a s t h
+      obtain ⟨b, n, h2⟩ := exists_cq h1
+      exact ⟨by dsimp only; rw [h2]; rfl, rfl⟩) (fun _ => rfl)
+
+theorem stepKtest_blind : Blind2 stepKtest := by
+  intro s t h
+  obtain ⟨b, n, rfl⟩ := exists_cq h; clear h
+  simp only [stepKtest, cq_alive, inSync_cq, cq_kept, cq_kstate, cq_caller, keptArgOk_cq]
+  isplit
+  · exact ⟨rfl, by first | rfl | trivial⟩
+  · isplit
+    · exact ⟨rfl, by first | rfl | trivial⟩
+    · cases s.kept with
+      | none => exact ⟨rfl, by first | rfl | trivial⟩
+      | some a =>
+        simp only []
+        isplit
+        · exact ⟨rfl, by first | rfl | trivial⟩
+        · isplit
+          · exact ⟨rfl, by first | rfl | trivial⟩
+          · isplit
+            · exact ⟨rfl, by first | rfl | trivial⟩
+            · exact syncGo_blind .kept _ _ rfl
+
+theorem kawaitGo_blind : Blind2 kawaitGo := by
+  intro s t h
+  obtain ⟨b, n, rfl⟩ := exists_cq h; clear h
+  simp only [kawaitGo, cq_done, cq_bst]
+  isplit
+  · exact ⟨rfl, by first | rfl | trivial⟩
+  · isplit
+    · exact ⟨rfl, by first | rfl | trivial⟩
+    · exact ⟨resumeBody_blind _ _ rfl, by first | rfl | trivial⟩
+
+theorem stepKawait_blind : Blind2 stepKawait := by
+  intro s t h
+  obtain ⟨b, n, rfl⟩ := exists_cq h; clear h
+  simp only [stepKawait, cq_alive, inSync_cq, cq_kept, cq_caller, keptArgOk_cq]
+  isplit
+  · exact ⟨rfl, by first | rfl | trivial⟩
+  · isplit
+    · exact ⟨rfl, by first | rfl | trivial⟩
+    · cases s.kept with
+      | none => exact ⟨rfl, by first | rfl | trivial⟩
+      | some a =>
+        simp only []
+        isplit
+        · exact ⟨rfl, by first | rfl | trivial⟩
+        · isplit
+          · exact ⟨rfl, by first | rfl | trivial⟩
+          · exact kawaitGo_blind _ _ rfl
+
+theorem futRes_blind : Blind2 futRes := by
+  intro s t h
+  obtain ⟨b, n, rfl⟩ := exists_cq h; clear h
+  exact ⟨rfl, by first | rfl | trivial⟩
+
+theorem callGo_blind : Blind2 callGo := by
+  intro s t h
+  obtain ⟨b, n, rfl⟩ := exists_cq h; clear h
+  simp only [callGo, cq_bst]
+  isplit
+  · exact ⟨rfl, by first | rfl | trivial⟩
+  · exact futRes_blind _ _ (resumeInQueue_blind _ _ rfl)
+
+theorem stepCall_blind (a : Nat) : Blind2 (stepCall · a) :=
+  guarded_blind (f := fun s => callGo (setArg s a))
+    (fun s t h => callGo_blind _ _ (setArg_blind a s t h)) (fun _ => rfl)
+
+theorem stepFutWait_blind : Blind2 stepFutWait := by
+  intro s t h
+  obtain ⟨b, n, rfl⟩ := exists_cq h; clear h
+  simp only [stepFutWait, inSync_cq, cq_fut]
+  isplit
+  · exact ⟨rfl, by first | rfl | trivial⟩
+  · cases s.fut <;> exact ⟨rfl, by first | rfl | trivial⟩
+
+theorem stepFutGet_blind : Blind2 stepFutGet := by
+  intro s t h
+  obtain ⟨b, n, rfl⟩ := exists_cq h; clear h
+  simp only [stepFutGet, inSync_cq, cq_fut]
+  isplit
+  · exact ⟨rfl, by first | rfl | trivial⟩
+  · cases s.fut <;> exact ⟨rfl, by first | rfl | trivial⟩
+
+theorem stepFutRead_blind (r : Reader) : Blind2 (stepFutRead · r) := by
+  intro s t h
+  obtain ⟨b, n, rfl⟩ := exists_cq h; clear h
+  simp only [stepFutRead, inSync_cq, cq_fut, cq_reader]
+  isplit
+  · exact ⟨rfl, by first | rfl | trivial⟩
+  · cases s.fut with
+    | none => exact ⟨rfl, by first | rfl | trivial⟩
+    | ready i => exact ⟨rfl, by first | rfl | trivial⟩
+    | pending =>
+      simp only []
+      isplit <;> exact ⟨rfl, by first | rfl | trivial⟩
+
+theorem stepComplete_blind (k : Nat) : Blind2 (stepComplete · k) := by
+  intro s t h
+  obtain ⟨b, n, rfl⟩ := exists_cq h; clear h
+  simp only [stepComplete, cq_resolved, cq_alive, cq_bst]
+  isplit
+  · exact ⟨rfl, by first | rfl | trivial⟩
+  · isplit
+    · exact ⟨resumeBody_blind _ _ rfl, by first | rfl | trivial⟩
+    · exact ⟨rfl, by first | rfl | trivial⟩
+
+theorem stepDestroy_blind : Blind2 stepDestroy := by
+  intro s t h
+  obtain ⟨b, n, rfl⟩ := exists_cq h; clear h
+  simp only [stepDestroy, cq_alive, inSync_cq, inflight_cq, cq_bst]
+  isplit
+  · exact ⟨rfl, by first | rfl | trivial⟩
+  · isplit
+    · exact ⟨rfl, by first | rfl | trivial⟩
+    · isplit
+      · exact ⟨rfl, by first | rfl | trivial⟩
+      · cases s.bst <;> exact ⟨rfl, by first | rfl | trivial⟩
+
+theorem stepItInc_blind : Blind2 stepItInc :=
+  guarded_blind (f := fun s => if s.mode then (s, .na) else if s.it.isNone then (s, .noit) else syncGo (setArg s 0) .itInc)
+    (fun s t h => by
+      obtain ⟨b, n, rfl⟩ := exists_cq h; clear h
+      simp only [cq_mode, cq_it]
+      isplit
+      · exact ⟨rfl, by first | rfl | trivial⟩
+      · isplit
+        · exact ⟨rfl, by first | rfl | trivial⟩
+        · exact syncGo_blind _ _ _ (setArg_blind 0 _ _ rfl)) (fun _ => rfl)
+
+theorem stepItBegin_blind : Blind2 stepItBegin :=
+  guarded_blind (f := fun s => if s.mode then (s, .na) else syncGo (setArg s 0) .itBegin)
+    (fun s t h => by
+      obtain ⟨b, n, rfl⟩ := exists_cq h; clear h
+      simp only [cq_mode]
+      isplit
+      · exact ⟨rfl, by first | rfl | trivial⟩
+      · exact syncGo_blind _ _ _ (setArg_blind 0 _ _ rfl)) (fun _ => rfl)
+
+theorem stepItPostInc_blind : Blind2 stepItPostInc :=
+  guarded_blind (f := fun s => if s.mode then (s, .na) else if s.it.isNone then (s, .noit)
+      else match readVal s with
+        | .val v => syncGo (setArg s 0) (.itPost (.val v))
+        | other => (s, .item other))
+    (fun s t h => by
+      obtain ⟨b, n, rfl⟩ := exists_cq h; clear h
+      simp only [cq_mode, cq_it, readVal_cq]
+      isplit
+      · exact ⟨rfl, by first | rfl | trivial⟩
+      · isplit
+        · exact ⟨rfl, by first | rfl | trivial⟩
+        · cases readVal s with
+          | val v => exact syncGo_blind _ _ _ (setArg_blind 0 _ _ rfl)
+          | _ => exact ⟨rfl, by first | rfl | trivial⟩) (fun _ => rfl)
+
+theorem stepItDeref_blind : Blind2 stepItDeref := by
+  intro s t h
+  have hv := stepValue_blind s t h
+  obtain ⟨b, n, rfl⟩ := exists_cq h; clear h
+  simp only [stepItDeref, cq_alive, inSync_cq, cq_it] at hv ⊢
+  isplit
+  · exact ⟨rfl, by first | rfl | trivial⟩
+  · isplit
+    · exact ⟨rfl, by first | rfl | trivial⟩
+    · isplit
+      · exact ⟨rfl, by first | rfl | trivial⟩
+      · first | exact hv | exact ⟨trivial, trivial⟩
+
+theorem stepItIsEnd_blind : Blind2 stepItIsEnd := by
+  intro s t h
+  obtain ⟨b, n, rfl⟩ := exists_cq h; clear h
+  simp only [stepItIsEnd, cq_alive, inSync_cq, cq_mode, cq_it]
+  isplit
+  · exact ⟨rfl, by first | rfl | trivial⟩
+  · isplit
+    · exact ⟨rfl, by first | rfl | trivial⟩
+    · isplit
+      · exact ⟨rfl, by first | rfl | trivial⟩
+      · cases s.it <;> exact ⟨rfl, by first | rfl | trivial⟩
+
+/-- no operation of the consumer other than `ctx` looks at the execution context or at the count of installed queues -/
+theorem step_blind (op : Op) (hop : ∀ b, op ≠ .ctx b) : Blind2 (step · op) := by
+  cases op with
+  | syncBegin a => exact stepSyncBegin_blind .plain a
+  | syncEnd => exact stepSyncEnd_blind
+  | value => exact stepValue_blind
+  | active => exact stepActive_blind
+  | anext a => exact stepAnext_blind a
+  | sub a => exact stepSub_blind a
+  | keep a => exact stepKeep_blind a
+  | ktest => exact stepKtest_blind
+  | kawait => exact stepKawait_blind
+  | call a => exact stepCall_blind a
+  | futWait => exact stepFutWait_blind
+  | futGet => exact stepFutGet_blind
+  | futAwait => exact stepFutRead_blind _
+  | futHas => exact stepFutRead_blind _
+  | itBegin => exact stepItBegin_blind
+  | itInc => exact stepItInc_blind
+  | itDeref => exact stepItDeref_blind
+  | itIsEnd => exact stepItIsEnd_blind
+  | itPostInc => exact stepItPostInc_blind
+  | itDrop =>
+    intro s t h
+    obtain ⟨b, n, rfl⟩ := exists_cq h; clear h
+    exact ⟨rfl, by first | rfl | trivial⟩
+  | complete k => exact stepComplete_blind k
+  | destroy => exact stepDestroy_blind
+  | ctx b => exact absurd rfl (hop b)
+
+/-- operations that are not a change of execution context -/
+def notCtx : Op → Bool
+  | .ctx _ => false
+  | _ => true
+
+theorem run_blind (ops : List Op) : ∀ s t : State, erase s = erase t →
+    erase (run s ops) = erase (run t (ops.filter notCtx)) := by
+  induction ops with
+  | nil => intro s t h; exact h
+  | cons op rest ih =>
+    intro s t h
+    cases op with
+    | ctx b => exact ih { s with coro := b } t h
+    | _ =>
+      simp only [List.filter, notCtx]
+      exact ih _ _ (step_blind _ (by intro b hb; cases hb) s t h).1
+
+
+/-- one operation (other than a change of context): the result and every other component of the state are those obtained by
+ordinary code -/
+theorem c13_context_transparent_step (s : State) (op : Op) (hop : ∀ b, op ≠ .ctx b) :
+    erase (step s op).1 = erase (step (erase s) op).1 ∧ (step s op).2 = (step (erase s) op).2 :=
+  step_blind op hop s (erase s) rfl
+
+/-- **The execution context is transparent.** Whatever mix of execution contexts the consumer uses (`ctx` operations anywhere in
+the list), every component of the final state other than the context itself and the count of installed queues — what was seen,
+the events, the hand-over record, the body — is what the same operations give when issued by ordinary code throughout. -/
+theorem c13_context_transparent (s : State) (ops : List Op) :
+    erase (run s ops) = erase (run (erase s) (ops.filter notCtx)) :=
+  run_blind ops s (erase s) rfl
+
+/-- `notCtx` drops exactly the changes of context -/
+theorem notCtx_eq : notCtx = fun o => match o with
+    | .ctx _ => false
+    | _ => true := by
+  funext o; cases o <;> rfl
+
+/-- the yielded variable across accesses in both contexts: a fresh value, then the accumulated 1, 12, 123, then the end; each
+time the body was resumed from `co_yield acc` its variable held what it had yielded -/
+example :
+    (run (init false [.yield 7, .yieldAcc 1, .yieldAcc 2, .yieldAcc 3])
+      [.call 0, .call 0, .value, .call 0, .ctx true, .call 0, .syncBegin 0, .syncEnd]).seen
+      = [.val 7, .val 1, .val 12, .val 123, .fin] ∧
+    (run (init false [.yield 7, .yieldAcc 1, .yieldAcc 2, .yieldAcc 3])
+      [.call 0, .call 0, .value, .call 0, .ctx true, .call 0, .syncBegin 0, .syncEnd]).accLog
+      = [(1, 1), (12, 12), (123, 123)] := by decide
+
+/-- a synchronous access made from inside a coroutine is served within the call under the coroutine's own queue (none
+installed); made by ordinary code, a queue is installed for the activation -/
+example :
+    (run (init false [.yield 1, .pause, .yieldAcc 2]) [.ctx true, .syncBegin 0]).block = true ∧
+    (run (init false [.yield 1, .pause, .yieldAcc 2]) [.ctx true, .syncBegin 0]).qinst = 0 ∧
+    (run (init false [.yield 1, .pause, .yieldAcc 2]) [.syncBegin 0]).block = true ∧
+    (run (init false [.yield 1, .pause, .yieldAcc 2]) [.syncBegin 0]).qinst = 1 := by decide
 
 /-! ### the hypotheses are satisfiable: concrete non-trivial runs (kernel-evaluated) -/
 
@@ -528,5 +1123,18 @@ theorem c13_next_async_stores_caller_before_throwing :
     let s := run (init false [.throw]) [.anext 0, .anext 0]
     s.seen = [.exc, .nomore] ∧ s.caller = .awt ∧ s.cons = .idle ∧ s.fut = .none ∧
       (step s (.syncBegin 0)).2 = .busy := by decide
+
+/-- The pinned `it++` (before `/repo` commit 6a6ab43 "fix: generator_iterator::operator++(int) moved the current value out of the
+generator body's own variable"; replayed on the headers in corpus/c13_postinc_moves_variable.txt): `generator_iterator::operator++(int)`
+built its stored copy with `std::move(_gen->value())` - with a value type whose move empties the source it emptied the variable the
+body had yielded as an lvalue. A body that keeps extending one variable (1, 12, 123) then delivers 1, 2, 3, and finds its variable
+empty on every resumption (contradicting `c13_body_variable_untouched` and `c13_sequence`). The repaired `it++` copies: 1, 12, 123. -/
+theorem c13_asis_postinc_empties_the_bodys_variable :
+    (let s0 := run (init false [.yieldAcc 1, .yieldAcc 2, .yieldAcc 3]) [.itBegin, .syncEnd]
+     let s1 := run (stepItPostIncAsIs s0).1 [.syncEnd]
+     let s2 := run (stepItPostIncAsIs s1).1 [.syncEnd]
+     s2.seen = [.val 1, .val 2, .val 3] ∧ s2.accLog = [(1, 0), (2, 0)]) ∧
+    (let t := run (init false [.yieldAcc 1, .yieldAcc 2, .yieldAcc 3]) [.itBegin, .syncEnd, .itPostInc, .syncEnd, .itPostInc, .syncEnd]
+     t.seen = [.val 1, .val 12, .val 123] ∧ t.accLog = [(1, 1), (12, 12)]) := by decide
 
 end Cocls.Gen
